@@ -332,7 +332,11 @@ func Generate(seed uint64) *Scenario {
 	}
 	// directed shapes that random drawing reaches too rarely
 	special := ""
-	switch r.Intn(40) {
+	shape := r.Intn(40)
+	if (shape == 2 || shape == 3) && r.Intn(3) != 0 {
+		shape = 39 // the two big shapes cost a hundred ordinary scenarios each: draw them less often
+	}
+	switch shape {
 	case 0: // two sibling commands with the same display name, addressed by that name
 		if len(sc.Root.Subs) >= 2 {
 			n := []string{"tool", "cmd"}[r.Intn(2)]
@@ -408,6 +412,13 @@ func Generate(seed uint64) *Scenario {
 		}
 		sc.Argv = append(sc.Argv, "help", w[:1+r.Intn(len(w))])
 		nargs = 0
+	}
+	// a map option given several key=value arguments whose keys differ only in case
+	for _, w := range names {
+		if o := optByName(cur, w); o != nil && (o.Kind == 11 || o.Kind == 12) && o.Max >= 2 && r.Intn(3) == 0 {
+			sc.Argv = append(sc.Argv, "--"+w, "key=V1", []string{"KEY=v2", "Key=v3"}[r.Intn(2)])
+			break
+		}
 	}
 	for i, n := 0, nargs; i < n; i++ {
 		switch r.Intn(10) {
